@@ -33,6 +33,7 @@ import (
 //   C19S <selectors> <name>            ; <positions returned by getRules(setRules(selectors), name)> | panic
 //        the selector trie itself (hook VerifSelectRules); strings as x<hex>, lists comma separated
 //   C19M <sel@shape,...> <methods> [own] ; per method:  <config tokens>|<annotation tokens>
+//        (shape 5 = a rule no method can take: a method it selects must fail to register, with the config as with the annotation)
 //        one Mux per method with the rules installed through ServiceConfigOption, and a twin Mux
 //        whose method carries, as a proto annotation, exactly the rules an independent reading of
 //        the selector syntax says cover it. A token per rule: who answered on the rule's path and
@@ -103,6 +104,10 @@ func c19DynRule(i int, shape int, sel string) dynRule {
 		// same verb and path as the method's own annotation (c19Own) but without a body mapping: bound
 		// like every selected rule, it is what answers on that path
 		return dynRule{Verb: "POST", Tmpl: "/c19/own", Selector: sel}
+	case 5:
+		// a rule no method of the schema can take (the request type has no such field): a method it selects
+		// cannot be registered -- exactly as if the rule were written as the method's annotation
+		return dynRule{Verb: "GET", Tmpl: base + "/{no_such_field}", Selector: sel}
 	default:
 		return dynRule{Verb: "GET", Tmpl: base, Selector: sel,
 			Additional: []dynRule{{Verb: "DELETE", Tmpl: base + "/{user_id}/del"}}}
@@ -127,6 +132,8 @@ func c19Requests(i int, shape int) []*http.Request {
 		r := httptest.NewRequest("POST", "/c19/own?user_id=u4", strings.NewReader(`{"text":"posted4"}`))
 		r.Header.Set("Content-Type", "application/json")
 		return []*http.Request{r}
+	case 5:
+		return []*http.Request{httptest.NewRequest("GET", base+"/x", nil)}
 	default:
 		return []*http.Request{httptest.NewRequest("GET", base+"?text=q", nil), httptest.NewRequest("DELETE", base+"/u1/del", nil)}
 	}
@@ -713,6 +720,10 @@ func c19Gen(o *out, r *rng, tier string) {
 	}
 	emitOwn(nil, "own-annotation")
 	for i, s := range universe {
+		// a rule that cannot be bound, alone and before / after one that can
+		emitM([]c19Rule{{s, 5}}, "unbindable")
+		emitM([]c19Rule{{s, 5}, {universe[(i*3+2)%len(universe)], i % 3}}, "unbindable")
+		emitM([]c19Rule{{universe[(i*7+1)%len(universe)], i % 3}, {s, 5}}, "unbindable")
 		// a selected rule on the verb and path of the method's own annotation
 		emitOwn([]c19Rule{{s, 4}}, "own-annotation-clash")
 		emitOwn([]c19Rule{{universe[(i*5+1)%len(universe)], i % 4}, {s, 4}}, "own-annotation-clash")
